@@ -54,9 +54,7 @@ func init() {
 		c.Run.Floor("K-NILFUNC/stub-branch", 2)
 		c.RunSkeletons(SkelOpts{Rules: []string{"K-NILFUNC", "K-RECORD/every-path", "K-RECORD/before-callback", "G-DATA/flags", "G-DATA/results", "G-SCOPE/shared", "G-MOCK/accepts"}})
 		flagFlow(c, "stub")
-		if cl := cli(c); cl != nil {
-			gen.CheckAlwaysGenerates(c.Run, c.Prog, cl)
-		}
+		cliAlwaysGenerates(c)
 		// the result variables of the -stub branch are allocated like parameters, in the same scope, and the
 		// builtin panic of the default branch must not be shadowed by a parameter
 		if na := gen.CheckAddVar(c.Run, c.Prog); na != nil {
@@ -76,9 +74,7 @@ func init() {
 		}})
 		flagFlow(c, "with-resets")
 		// the flag decides what is at -out only if a run always regenerates and replaces the whole file
-		if cl := cli(c); cl != nil {
-			gen.CheckFileReplaced(c.Run, c.Prog, cl)
-			gen.CheckAlwaysGenerates(c.Run, c.Prog, cl)
-		}
+		cliFileReplaced(c)
+		cliAlwaysGenerates(c)
 	})
 }
